@@ -141,6 +141,18 @@ def c17_3(ctx):
     dd = [c for c in calls_in(fn.node, 'drop_duplicates')]
     if not dd or N(kw(dd[0], 'subset') or ast.Constant(0)) != '[_updated]' or const(kw(dd[0], 'keep')) != 'last':
         ctx.fail(fn, fn.node, 'same-stamp versions are not reduced with drop_duplicates(subset = [stamp], keep = "last")')
+    # order: the same-stamp winner is chosen AFTER the forward-filled repeat test (on its result), never on the raw versions - otherwise the
+    # NaN of the version merged last removes the same-stamp version that carried the value before the fill can see it
+    ctx.count(1)
+    if dd:
+        nu_i = fn.body.index(nu) if nu in fn.body else None
+        pm_ = parent_map(fn.node)
+        st = enclosing_stmt(pm_, dd[0])
+        st_i = fn.body.index(st) if st in fn.body else None
+        recv = dd[0].func.value if isinstance(dd[0].func, ast.Attribute) else None
+        if nu_i is not None and st_i is not None and st_i < nu_i or (isinstance(recv, ast.Name) and recv.id == d):
+            ctx.fail(fn, st, 'same-stamp versions are reduced (`%s`) on the raw versions, before the forward fill and the repeat test: the NaN of a later same-stamp version then overrides the value of the earlier one' % U(st)[:90],
+                     witness='versions 1@t0, 5@t1, NaN@t1 for one date: reads at t1 must return 5')
     rr = returns_of(fn.node)
     if not rr or U(rr[-1].value) != 'res':
         ctx.fail(fn, fn.node, '_drop_repeats does not return the cleaned rows')
